@@ -1276,5 +1276,16 @@ func LoadSpecs(repoDir, modelsDir string) (*SpecDB, error) {
 			return nil, err
 		}
 	}
+	// lint: a contract that declares no effect cannot promise freshly allocated results
+	for _, f := range db.Funcs {
+		if !f.Pure {
+			continue
+		}
+		for _, e := range f.Ensures {
+			if strings.Contains(e.Src, "fresh(") {
+				return nil, fmt.Errorf("contract %s: `noeffect` contradicts fresh() in ensures %s (allocation is an effect)", f.Key(), e.Label)
+			}
+		}
+	}
 	return db, nil
 }
